@@ -269,7 +269,14 @@ def build(chk):
                     conj.append(False)
                     continue
                 # integer variables with bounds (0,1) / (0,0) / (1,1) are reported as binary
-                kind_ok = (v['kind'] == kind) if kind != 2 else (v['kind'] in (1, 2))
+                if kind != 2:
+                    kind_ok = v['kind'] == kind
+                else:
+                    # an integer variable is reported as binary exactly when its bounds are (0,1), (0,0) or (1,1)
+                    def is_(x, n):
+                        return x.tag == 'fin' and r_cmp('eq', x.r, Fraction(n))
+                    as_binary = b_or(b_and(is_(lo, 0), is_(hi, 1)), b_and(is_(lo, 0), is_(hi, 0)), b_and(is_(lo, 1), is_(hi, 1)))
+                    kind_ok = b_or(b_and(as_binary, v['kind'] == 1), b_and(b_not(as_binary), v['kind'] == 2))
                 conj += [kind_ok, same_end(b[0], lo), same_end(b[1], hi), v['name'] == name]
             if not P.require('variables', b_and(*conj), witness, role):
                 return
@@ -382,10 +389,14 @@ def concrete_matches(inst, want):
     for v, (kind, lo, hi, name) in zip(inst['decision_variables'], want['vars']):
         if v['name'] != name or v['bound'] is None:
             return False
-        if not (v['kind'] == kind or (kind == 2 and v['kind'] == 1)):
-            return False
         elo = -math.inf if lo.tag == 'ninf' else math.inf if lo.tag == 'pinf' else float(lo.r)
         ehi = math.inf if hi.tag == 'pinf' else -math.inf if hi.tag == 'ninf' else float(hi.r)
+        if kind == 2:
+            want_kind = 1 if (elo, ehi) in ((0.0, 1.0), (0.0, 0.0), (1.0, 1.0)) else 2
+        else:
+            want_kind = kind
+        if v['kind'] != want_kind:
+            return False
         if not close(v['bound']['lower'], elo) or not close(v['bound']['upper'], ehi):
             return False
     if len(inst['constraints']) != len(want['cons']):
